@@ -622,7 +622,7 @@ func (fv *FnV) evalSpecCall(st *State, call *ast.CallExpr, name string, o *types
 		body := fv.eval(st, fl.Body.List[0].(*ast.ReturnStmt).Results[0])
 		delete(sf.cur, pobj)
 		delete(sf.old, pobj)
-		return Val{fmt.Sprintf("(forall ((%s Int)) (=> (> %s 0) %s))", bv, bv, body.T), rt}
+		return Val{fmt.Sprintf("(forall ((%s Int)) (=> (not (= %s 0)) %s))", bv, bv, body.T), rt}
 	case "__forallInt":
 		fl := call.Args[0].(*ast.FuncLit)
 		pid := fl.Type.Params.List[0].Names[0]
